@@ -7,6 +7,7 @@
 (*   bytes bs | none | some x | unit | unit_struct | unit_variant variant  *)
 (*   newtype_struct x | newtype_variant variant x | seq xs | tuple xs      *)
 (*   tuple_struct xs | tuple_variant variant xs | map kv (<<key, value>>)  *)
+(*   mapkv kv (the same, emitted key by key and value by value)            *)
 (*   struct fields (<<name, value>>) | struct_variant variant fields       *)
 (*   fail msg   (a value whose own Serialize implementation fails)         *)
 (*   hr x y     (a value that serializes as x for human-readable formats   *)
@@ -19,6 +20,9 @@ SErr == [ok |-> FALSE, e |-> "Ser"]
 
 IntKinds == {"i8", "i16", "i32", "i64", "i128", "u8", "u16", "u32", "u64", "u128"}
 SeqKinds == {"seq", "tuple", "tuple_struct"}
+\* "mapkv" is a map whose entries are emitted as separate key and value calls (what flattened fields and many
+\* hand-written implementations do) instead of whole entries: the data, and so the image, is the same
+MapKinds == {"map", "mapkv"}
 
 \* a map key must serialize to a string
 RECURSIVE KeyOf(_)
@@ -50,7 +54,7 @@ Image(t) ==
     [] t.k = "newtype_variant" -> Tag(t.variant, Image(t.x))
     [] t.k \in SeqKinds -> ImageSeq(t.xs, 1, <<>>)
     [] t.k = "tuple_variant" -> Tag(t.variant, ImageSeq(t.xs, 1, <<>>))
-    [] t.k = "map" -> ImageMap(t.kv, 1, <<>>)
+    [] t.k \in MapKinds -> ImageMap(t.kv, 1, <<>>)
     [] t.k = "struct" -> ImageFields(t.fields, 1, <<>>)
     [] t.k = "struct_variant" -> Tag(t.variant, ImageFields(t.fields, 1, <<>>))
     [] t.k = "fail" -> SErr
@@ -63,7 +67,7 @@ Bad(t) ==
     [] t.k \in IntKinds -> ~IntInRange(t.n)
     [] t.k \in {"some", "newtype_struct", "newtype_variant", "hr"} -> Bad(t.x)
     [] t.k \in SeqKinds \cup {"tuple_variant"} -> \E i \in 1..Len(t.xs) : Bad(t.xs[i])
-    [] t.k = "map" -> \E i \in 1..Len(t.kv) : ~KeyOf(t.kv[i][1]).ok \/ Bad(t.kv[i][2])
+    [] t.k \in MapKinds -> \E i \in 1..Len(t.kv) : ~KeyOf(t.kv[i][1]).ok \/ Bad(t.kv[i][2])
     [] t.k \in {"struct", "struct_variant"} -> \E i \in 1..Len(t.fields) : Bad(t.fields[i][2])
     [] OTHER -> FALSE
 
@@ -74,7 +78,7 @@ JsonRep(t) ==
     [] t.k \in {"f32", "f64"} -> t.f.c = "fin"
     [] t.k \in {"some", "newtype_struct", "newtype_variant", "hr"} -> JsonRep(t.x)
     [] t.k \in SeqKinds \cup {"tuple_variant"} -> \A i \in 1..Len(t.xs) : JsonRep(t.xs[i])
-    [] t.k = "map" -> \A i \in 1..Len(t.kv) : KeyOf(t.kv[i][1]).ok /\ JsonRep(t.kv[i][2])
+    [] t.k \in MapKinds -> \A i \in 1..Len(t.kv) : KeyOf(t.kv[i][1]).ok /\ JsonRep(t.kv[i][2])
     [] t.k \in {"struct", "struct_variant"} -> \A i \in 1..Len(t.fields) : JsonRep(t.fields[i][2])
     [] t.k = "fail" -> FALSE
     [] OTHER -> TRUE
